@@ -158,14 +158,14 @@ def lockup_preamble(facts, impl):
     return "cfg undoUsesOldDelegate %d\ncfg revertRestoresBatch %d\n" % (1 if facts.get("lockup_undo_uses_old_delegate") else 0, 1 if facts.get("revert_restores_lockup_batch") else 0)
 
 PROPS["C13"] = dict(
-    lean_modules=["QuaiVerif.Props.C13"],
-    areas=[dict(name="lockup", n_quick=600, n_thorough=12000, seeds_thorough=3, n_search=2500, preamble=lockup_preamble)],
+    lean_modules=["QuaiVerif.Props.C13", "QuaiVerif.Props.C13b"],
+    areas=[dict(name="lockup", n_quick=600, n_thorough=12000, seeds_thorough=3, n_search=2500, preamble=lockup_preamble), dict(name="c13chain", n_quick=3, n_thorough=40, seeds_thorough=3, n_search=10, timeout=3000)],
     facts=["lockup_undo_uses_old_delegate", "revert_restores_lockup_batch"],
-    rule="a case is one multi-block history on a real block batch (pending mode, committed at block boundaries) of 6-30 operations over 2 owner contracts x 2 miners "
+    rule="[c13chain] a case is one 36-block history of the real zone node (see C06) in which three reward-only Quai addresses receive coinbases (lock bytes 0-3, as miner coinbase and as inbound coinbase ETXs) and Qi->Quai conversions and never transact; after every block their balances are compared with the model and with an independent ledger of matured rewards. [lockup] a case is one multi-block history on a real block batch (pending mode, committed at block boundaries) of 6-30 operations over 2 owner contracts x 2 miners "
          "x 3 lockup bytes x 3 epochs: AddNewLock (delegate changes, unlock heights incl. epoch-aligned 0), claims through EVM.Call into the lockup precompile by "
          "owner and non-owner, before/at/after the tranche unlock height, with too little gas, to the other ledger, repeated in the same and in later blocks, and "
          "claims inside a frame that REVERTs; all non-trivial; distinct by sub-seed",
-    level_text="Claim conditions and amount, claim-once, owner-only, per-tranche accumulation (balance = sum of values over any run of additions) and the undo "
+    level_text="[payout schedule] 'after blocks 1..h a reward-only account holds exactly the rewards whose unlock height block+depth has been reached, each once, none earlier' is a Lean theorem (induction over heights) over the RedeemLockedQuai look-back model, run in lock-step with reward-only accounts of a real zone chain (area c13chain: Quai coinbases of every lock byte and Qi->Quai conversions, balances after every block, plus an independent ledger). Claim conditions and amount, claim-once, owner-only, per-tranche accumulation (balance = sum of values over any run of additions) and the undo "
                "record being the old record are Lean theorems over the lockup-ledger model; the two source facts the fixed variant depends on are regenerated; "
                "the model is run against the real AddNewLock / lockup precompile / ReadCoinbaseLockup on a real batch across block boundaries.",
     level_note="PARTIAL: block-reward formula and coinbase ETX construction, workshare uniqueness (VerifyUncles), and plain locked rewards / Qi->Quai conversions "
@@ -362,7 +362,7 @@ PROPS["C08"] = dict(
 
 PROPS["C19"] = dict(
     lean_modules=["QuaiVerif.Props.C19"],
-    areas=[dict(name="c19", n_quick=20, n_thorough=400, seeds_thorough=3, n_search=60, timeout=3000, confirm_diff=True)],
+    areas=[dict(name="c19", n_quick=20, n_thorough=150, seeds_thorough=3, n_search=60, timeout=3000, confirm_diff=True)],
     rule="a case is one history of 12-36 operations on the real core.TxPool over a scripted chain (real StateDB and blocks, harness-driven head feed, 1 ms "
          "reorg tick): submissions for 3 accounts - next nonce, gaps of 1-3, same-nonce replacements priced at old, old+1, 105% -1 / exactly / +1 and 200%, "
          "stale nonces, unaffordable values, resubmissions of earlier transactions - blocks that include a prefix of the accounts' pending lists with "
@@ -372,14 +372,12 @@ PROPS["C19"] = dict(
          "6 blocks arrive, then checks invariants, limits and termination",
     level_text="'every reachable per-account state has a pending list that is nonce-contiguous from the state nonce' (induction over histories of submissions "
                "and head changes), 'after a head change every pending transaction is affordable and not stale', the replacement rule (strictly higher price "
-               "and the configured bump, else rejected; ok means the nonce was free) and 'a rejected submission changes nothing' are Lean theorems over "
+               "and the configured bump, else rejected; ok means the nonce was free) 'no nonce is held twice, so nothing is both pending and queued' (counting invariant through add / promote / re-injection / demotion) and 'a rejected submission changes nothing' are Lean theorems over "
                "the per-account pool model (add / promote / reset with re-injection / demotion); the model runs in lock-step with the real pool.",
     level_note="PARTIAL: proofs cover the sequential per-account core. Not modelled: the global limits and price-based eviction (truncatePending / "
                "truncateQueue / priced heap; checked on the real pool only), lifetime eviction, the journal, the Qi pool, gas-price changes, and - the "
                "property's 'any interleaving' - concurrency: the flood cases and the race detector (thorough tier builds the harness with -race when "
-               "VERIF_RACE=1) sample schedules, they do not cover them. 'No nonce both pending and queued' and index = lists are checked on the real pool at "
-               "every quiescent point, not proved. Quiescence is detected by polling (7 identical snapshots 3 ms apart); a model disagreement without an "
-               "invariant violation is re-run before it is reported.",
+               "VERIF_RACE=1) sample schedules, they do not cover them. Index = lists = stats is checked on the real pool at every quiescent point, not proved. Quiescence is detected by polling (7 identical snapshots 3 ms apart); a promotion the pool has not carried out yet (pending a strict prefix of the executable run - the reorg tick only re-examines accounts marked dirty) is masked in the comparison, anything else is compared exactly; a model disagreement without an invariant violation is re-run before it is reported.",
     assumptions=["accounts are independent in the pool (per-account lists; the global limits are out of the model)",
                  "a transaction's validity against the state is nonce >= state nonce and cost <= balance (gas limit and base-fee floor are kept satisfied by the generator)"],
 )
